@@ -41,5 +41,29 @@ Proof.
   vm_compute. eexists. split; [right; right; left; reflexivity|]. repeat split.
 Qed.
 
+(* Without dereferencing the last sentence is FALSE too, of the model and of the code, for a
+   relative link that leaves the source directory and comes back in through the directory's own
+   name (known finding KF-C05-3): s/a -> ../s/b is inside "/s" as Pack judges it, is stored as a
+   link, and at its position in the archive - whose root has no name - points outside: Unpack
+   into /dst refuses the slug, Unpack into a directory that happens to be called s accepts it. *)
+Definition c05_fs2 : node :=
+  Dir 493 None
+    [ (s2l "s", Dir 493 None [(s2l "a", Link (s2l "../s/b")); (s2l "b", File (s2l "B") 420 None)]);
+      (s2l "dst", Dir 493 None []);
+      (s2l "x", Dir 493 None [(s2l "s", Dir 493 None [])]) ].
+
+Definition c05_reenter_check : bool :=
+  match fst (pack 100 c05_fs2 (mkOpts false false []) [true; false; false] [] (s2l "/s")) with
+  | PackOk es _ _ =>
+      let es' := map (fun e => mkEntry (pe_name e) (pe_type e) (pe_link e) (pe_perm e) (pe_mtime e) (pe_body e)) es in
+      existsb (fun e => N.eqb (pe_type e) ty_sym && str_eqb (pe_link e) (s2l "../s/b")) es
+      && (match snd (unpack true [] c05_fs2 (s2l "/dst") es') with RIllegal => true | _ => false end)
+      && (match snd (unpack true [] c05_fs2 (s2l "/x/s") es') with ROk => true | _ => false end)
+  | _ => false
+  end.
+Example C05_reentering_link_refuted : c05_reenter_check = true.
+Proof. vm_compute. reflexivity. Qed.
+
 Print Assumptions C05_no_leak_without_dereference.
 Print Assumptions C05_archive_position_refuted.
+Print Assumptions C05_reentering_link_refuted.
